@@ -159,8 +159,14 @@ func multiBfsCheck(regName string, parts []part, extraAssume []string) {
 
 // comboCheck registers a property decided by one BFS exploration plus grids.
 func comboCheck(prop, driver string, mk func() Driver, qd, td, qc, tc int, grids []func() GridDriver, gq, gt int, extraAssume []string) {
+	comboCheckT(prop, driver, func(string) func() Driver { return mk }, qd, td, qc, tc, grids, gq, gt, extraAssume)
+}
+
+// comboCheckT is comboCheck with a tier-dependent BFS driver.
+func comboCheckT(prop, driver string, mkT func(tier string) func() Driver, qd, td, qc, tc int, grids []func() GridDriver, gq, gt int, extraAssume []string) {
 	Registry[prop] = &Check{
 		Run: func(tier string, seed int64) int {
+			mk := mkT(tier)
 			kf := LoadFindings()
 			o := Options{Property: prop, Tier: tier, Seed: seed, Workers: Workers(), Depth: qd, ConfCap: qc, Deadline: 8 * time.Minute}
 			gconf := gq
@@ -189,6 +195,8 @@ func comboCheck(prop, driver string, mk func() Driver, qd, td, qc, tc int, grids
 			if rf.Driver == "grid" {
 				return replayGrid(rf, grids)
 			}
+			t, _ := rf.Params["tier"].(string)
+			mk := mkT(t)
 			v, names := ReplayOps(mk, rf.Ops)
 			for i, n := range names {
 				fmt.Printf("  %2d. %s\n", i+1, n)
@@ -478,11 +486,11 @@ func init() {
 			Replay: func(rf *ReplayFile) int { defer CleanupScratch(); return inner.Replay(rf) },
 		}
 	}
-	bfsCheckT("C08", "netmap-history", func(tier string) func() Driver {
+	comboCheckT("C08", "netmap-history", func(tier string) func() Driver {
 		if tier == "thorough" {
 			return func() Driver { return NewSnapDriver([]int{0, 1, 2, 3, 4, 5, 6, 7, 8, 9, 10, 11, 12, 255, 256, 257, 266}, 30, 2) }
 		}
 		return func() Driver { return NewSnapDriver([]int{0, 1, 2, 3, 5, 9, 10, 11, 12, 255, 256, 266}, 14, 2) }
-	}, 16, 32, 60, 300, nil)
+	}, 16, 32, 60, 300, []func() GridDriver{func() GridDriver { return NewLongHistoryGrid() }}, 2, 6, nil)
 	bfsCheck("C09", "balance-locks", func() Driver { return NewBalDriver("C09") }, 5, 8, 120, 1000, nil)
 }
